@@ -25,4 +25,10 @@ META = {
   "text": "Theorems: if every rule of every node satisfies the local condition rule_ok then no consistent derivation attaches Public/Published/DP/SD to a node that depends on raw protected rows without a [PUP]->DP reduce in between; rule_ok holds for the rule table generated from the code on this run (C02_table_ok by vm_compute); hence whatever rewrite_with_differential_privacy applies is clean, and a protected table is never labelled Public/Published/DP. Tied to the code by the generated table, by comparing the per-node rule lists of real trees with the table, and by an IR walk of every rewritten acceptable derivation.",
   "note": "Trusted: Coq kernel, vm_compute, the generator, the exporter. What IR the Rewriter builds per rule is not modelled; it is checked on sampled queries by the IR walk (protected table leaf below a noise-adding map or replaced by its synthetic table).",
  },
+ "C03": {
+  "technique": "Coq proof over R (budget split, antitonicity of the Gaussian calibration, event composition) + in-Coq rational re-computation of the plan against sigma/C and the DpEvent read off the rewritten query",
+  "design_ref": "DESIGN.md section 4, C03",
+  "text": "Theorems: for every split of one DP aggregation (any number of DISTINCT groups and sums, thresholding or not, any eps>0, delta>0, share in [0,1]) the sum of the per-mechanism epsilons and deltas plus the key-release share is at most (eps, delta); the recorded multiplier nm(eps_j, delta_j) is never larger than the applied sigma/C = nm(eps_j/n, delta_j/n); composing events loses no non-no-op leaf. Tied to the code by compiling generated aggregation queries with the real compiler, reading every sigma, clipping constant and tau off the output IR and the flattened DpEvent, and re-computing the plan inside Coq on exact rationals.",
+  "note": "Trusted: Coq kernel, Reals axioms (sig_forall_dec, sig_not_dec, functional_extensionality_dep, classic), the IR reader, Rust's f64 ln. That the classical Gaussian calibration is (eps,delta)-DP is cited (and needs eps<1: the code only warns).",
+ },
 }
